@@ -116,6 +116,12 @@ ITER = [M("Iteration", "MCIter_%s.cfg" % k) for k in ("1_7", "2_9", "3_10", "3_1
 MOVE = [M("FreeListSmall", "MCSmall_regress_move.cfg", "witness"), M("FreeListSmall", "MCSmall_2x3.cfg"), M("Arena", "MCArena_cached.cfg"),
         M("Arena", "MCArena_uncached.cfg")]
 
+COMPOSE = [M("MCCompose", "MCCompose_t%d_%s.cfg" % (t, a), tier="quick" if (t, a) in ((1, "ArrAll"), (2, "ArrAll"), (3, "ArrNone2")) else "thorough")
+           for t in (1, 2, 3) for a in ("ArrAll", "ArrNone1", "ArrNone2")] + \
+          [M("MCCompose", "MCCompose_regress_f6.cfg", "witness"), M("MCCompose", "MCCompose_wit.cfg", "witness")]
+LEAK = [M("LeakCounter", "MCLeak.cfg"), M("LeakCounter", "MCLeak_regress_rmw.cfg", "witness"),
+        M("LeakCounter", "MCLeak_regress_move.cfg", "witness"), M("LeakCounter", "MCLeak_wit.cfg", "witness")]
+
 # property -> design model runs
 MODELS = {
     "C01": FREELIST + COLL + STACK[:2] + ITER[:4],
@@ -126,7 +132,9 @@ MODELS = {
     "C06": STACK,
     "C07": ITER,
     "C12": MOVE,
-    "C15": [],
+    "C15": LEAK,
+    "C08": COMPOSE,
+    "C09": COMPOSE,
     "C18": [STACK[0], ITER[2]],
     "C14": [M("TempStackList", "MCTemp_3x2.cfg"), M("TempStackList", "MCTemp_2x3.cfg"), M("TempStackList", "MCTemp_4x2.cfg", tier="thorough", workers=8),
             M("TempStackList", "MCTemp_regress_uninit.cfg", "witness"), M("TempStackList", "MCTemp_regress_detector.cfg", "witness"),
@@ -134,7 +142,7 @@ MODELS = {
             M("TempStackList", "MCTemp_wit_adopt.cfg", "witness"), M("TempStackList", "MCTemp_wit_race.cfg", "witness")],
     "C10": [M("Propagate", "MCProp.cfg"), M("Propagate", "MCProp_noprop.cfg"), M("Propagate", "MCProp_regress_swap.cfg", "witness"),
             M("Propagate", "MCProp_regress_eq.cfg", "witness"), M("Propagate", "MCProp_wit.cfg", "witness")],
-    "C13": [M("Storage", "MCStorage.cfg"), M("Storage", "MCStorage_regress.cfg", "witness"), M("Storage", "MCStorage_wit.cfg", "witness")],
+    "C13": [M("Storage", "MCStorage.cfg"), M("Storage", "MCStorage_regress.cfg", "witness"), M("Storage", "MCStorage_wit.cfg", "witness")] + LEAK,
 }
 
 # C19 / table part of C18 (plans_tables.py): arithmetic definitions vs. bit tricks, min_block_size layout
